@@ -147,38 +147,46 @@ def scale_zero_ignored(prog: Program, rep, RID: str):
 
 
 def augmentation_guards(prog: Program, rep, RID: str):
+    # decided on the name-free statements of the method and their path conditions (sa.boolnf): the disjunction of the conditions
+    # under which a synthetic edge of the loop's node is created - directly by add_edge or through a list handed to
+    # add_edges_from - must be *equivalent* to the documented rule
+    from rules.common import canonical_calls
+    from sa import boolnf as B
     f = prog.own_method("AbstractSourceSinkGraph", "_augment_with_source_sink")
-    found = {"source": False, "sink": False}
-    for c in calls_in(f.node):
-        if not (isinstance(c.func, ast.Attribute) and c.func.attr == "add_edge" and len(c.args) >= 2):
-            continue
-        a0, a1 = norm(c.args[0]), norm(c.args[1])
-        if a0 == "self.source":
-            kind, node, deg, extra = "source", a1, "in_degree", "additional_starts"
-        elif a1 == "self.sink":
-            kind, node, deg, extra = "sink", a0, "out_degree", "additional_ends"
-        else:
-            continue
-        found[kind] = True
-        tests = enclosing_tests(f.node, c)
+    calls = canonical_calls(f.node)
+    N = r"<self\.base_graph\.nodes(\(\))?>"
+    for kind, deg, extra, pat in (("source", "in_degree", "additional_starts", r"\(self\.source, (%s)\)|add_edge\(self\.source, (%s)[,)]" % (N, N)),
+                                  ("sink", "out_degree", "additional_ends", r"\((%s), self\.sink\)|add_edge\((%s), self\.sink[,)]" % (N, N))):
         key = f"AbstractSourceSinkGraph._augment_with_source_sink:{kind}-edge"
-        if len(tests) != 1 or not tests[0][1]:
-            rep.violation(RID, key, f"the {kind} edge is added under {len(tests)} nested tests (expected one disjunction)", f.loc(c))
-            continue
-        t = tests[0][0]
-        parts: Set[str] = set()
-        if isinstance(t, ast.BoolOp) and isinstance(t.op, ast.Or):
-            parts = {norm(v) for v in t.values}
+        ev = [(t, c, ln) for t, c, ln in calls if re.search(pat, t) and re.search(r"add_edge\(|\.append\(|\.add\(", t)]
+        if not ev:
+            raise AnalysisError(f"_augment_with_source_sink: creation of the synthetic {kind} edges not recognised (statements: {[t[:60] for t, c, ln in calls][:8]})")
+        node = re.search(N, ev[0][0]).group(0)
+        # appended lists must reach the graph
+        for t, c, ln in ev:
+            m = re.match(r"([\w.]+)\.append\(", t)
+            if m and not any(re.search(r"add_edges_from\(%s\)" % re.escape(m.group(1)), t2) for t2, c2, l2 in calls):
+                raise AnalysisError(f"_augment_with_source_sink: the {kind} edges collected in `{m.group(1)}` are never handed to add_edges_from")
+        base = B.mk_or([c for t, c, ln in calls if False]) if False else None
+        cond = B.mk_or([c for t, c, ln in ev])
+        want = B.mk_or([B.parse(ast.parse(f"self.base_graph.{deg}(X) == 0", mode="eval").body), B.parse(ast.parse(f"X in self.{extra}", mode="eval").body)])
+        # rename the loop element in the canonical atoms
+        def ren(fm):
+            if fm[0] == "a":
+                return ("a", fm[1].replace(node, "X"))
+            if fm[0] == "not":
+                return ("not", ren(fm[1]))
+            if fm[0] in ("and", "or"):
+                return (fm[0], tuple(ren(x) for x in fm[1]))
+            return fm
+        cond = ren(cond)
+        if B.equivalent(cond, want):
+            rep.ok(RID, key, f"the synthetic {kind} edge of a node is created iff {deg}(node) == 0 or node in {extra}", f.loc(), sample={"condition": B.key(cond)[:160]})
         else:
-            parts = {norm(t)}
-        want = {f"self.base_graph.{deg}({node}) == 0", f"{node} in self.additional_{'starts' if kind == 'source' else 'ends'}"}
-        if parts == want and isinstance(t, ast.BoolOp):
-            rep.ok(RID, key, f"added iff {deg}({node}) == 0 or {node} in {extra}", f.loc(c), sample={"guard": norm(t)})
-        else:
-            rep.violation(RID, key, f"the synthetic {kind} edge of `{node}` is added under `{norm(t)}`; documented rule: {' or '.join(sorted(want))}. "
-                          "Admissible start/end nodes are enlarged or shrunk", f.loc(c))
-    if not all(found.values()):
-        raise AnalysisError("_augment_with_source_sink: source/sink edge additions not found")
+            w = B.witness(cond, want) or {}
+            rep.violation(RID, key, f"the synthetic {kind} edge of a node is created under [{B.key(cond)[:200]}]; documented rule: {deg}(node) == 0 or node in {extra}. "
+                          f"They differ e.g. when {', '.join(f'{k_} is {v_}' for k_, v_ in sorted(w.items()))[:220]}: admissible start/end nodes are enlarged or shrunk",
+                          f"{f.module.relpath}:{ev[0][2]}")
     # additional start/end membership validated and stored as given
     g = prog.own_method("AbstractSourceSinkGraph", "__init__")
     src = norm(g.node)
@@ -277,7 +285,7 @@ def greedy_rejection(prog: Program, rep, RID: str):
     # the constraint loop: for subpath in self.subpath_constraints: ... if gu.max_occurrence(...) < L * c: return False
     loop = None
     for n in walk_no_nested(f.node):
-        if isinstance(n, ast.For) and norm(n.iter) == "self.subpath_constraints":
+        if isinstance(n, ast.For) and norm(n.iter) in ("self.subpath_constraints", "self.subpath_constraints or []", "self.subpath_constraints or ()"):
             loop = n
     key = "kFlowDecomp._get_solution_with_greedy:constraint-check"
     if loop is None:
